@@ -1,7 +1,7 @@
 #!/bin/bash
 # tools/evalseed.sh <prop> : for each /tmp/seed_out/<prop>/<k>: demo on clean HEAD worktree (must PASS), then patched (must FAIL) + check
 p=$1
-for d in /tmp/seed_out/$p/[0-9]; do
+for d in ${SEEDROOT:-/tmp/seed_out}/$p/[0-9]; do
   k=$(basename $d)
   [ -f $d/patch.diff ] || continue
   echo "=== $p/$k"
